@@ -108,24 +108,16 @@ class TAXIICollectionSink(DataSink):
             else:
                 bundle = v20.Bundle(stix_data, allow_custom=self.allow_custom).serialize(encoding='utf-8', ensure_ascii=False)
 
-        elif isinstance(stix_data, dict):
-            # adding python dict (of either Bundle or STIX obj)
-            if stix_data['type'] == 'bundle':
-                bundle = parse(stix_data, allow_custom=self.allow_custom, version=version).serialize(encoding='utf-8', ensure_ascii=False)
-            elif 'spec_version' in stix_data:
-                # If the spec_version is present, use new Bundle object...
-                bundle = v21.Bundle(stix_data, allow_custom=self.allow_custom).serialize(encoding='utf-8', ensure_ascii=False)
-            else:
-                bundle = v20.Bundle(stix_data, allow_custom=self.allow_custom).serialize(encoding='utf-8', ensure_ascii=False)
-
         elif isinstance(stix_data, list):
             # adding list of something - recurse on each
             for obj in stix_data:
                 self.add(obj, version=version)
             return
 
-        elif isinstance(stix_data, str):
-            # adding json encoded string of STIX content
+        elif isinstance(stix_data, (dict, str)):
+            # adding python dict or json encoded string (of either Bundle or
+            # STIX obj): parse it first, so that `version` is honoured in both
+            # forms
             stix_data = parse(stix_data, allow_custom=self.allow_custom, version=version)
             if stix_data['type'] == 'bundle':
                 bundle = stix_data.serialize(encoding='utf-8', ensure_ascii=False)
